@@ -22,7 +22,9 @@ def section(text, pat):
 
 for d in sorted(glob.glob(os.path.join(SRC, "C[0-9][0-9]-[0-9]"))):
     sid = os.path.basename(d)
-    cj = os.path.join(d, "confirm.json")
+    cj = os.path.join(DST, sid, "confirm.json")
+    if not os.path.exists(cj):
+        cj = os.path.join(d, "confirm.json")
     if not os.path.exists(cj):
         print(sid, "not confirmed yet")
         continue
@@ -35,7 +37,8 @@ for d in sorted(glob.glob(os.path.join(SRC, "C[0-9][0-9]-[0-9]"))):
     out = os.path.join(DST, sid)
     os.makedirs(out, exist_ok=True)
     for f in ("patch.diff", "demo.py", "notes.md", "confirm.json"):
-        if os.path.exists(os.path.join(d, f)):
+        # never overwrite what is already archived (patches rebased onto the repaired tree, re-confirmations)
+        if os.path.exists(os.path.join(d, f)) and not os.path.exists(os.path.join(out, f)):
             shutil.copy(os.path.join(d, f), os.path.join(out, f))
     notes = open(os.path.join(d, "notes.md")).read() if os.path.exists(os.path.join(d, "notes.md")) else ""
     title = notes.strip().splitlines()[0].lstrip("# ").strip() if notes.strip() else sid
